@@ -103,7 +103,8 @@ def cases(rng, tier):
                 U64 - 1 - OFFSET, rnd_u64(rng)]
         now = min(rng.choice(nows), U64 - 1 - OFFSET)
         hop = rng.choice([None, None, (32, 1), (rng.randrange(256), rng.randrange(256)), (255, 254), (255, 255), (0, 0)])
-        node = rng.choice([NODE, ("IPN", 2, 23, 0), ("NONE", 1, 0)])
+        # the given node is written into the previous-node block AS GIVEN: node IDs, endpoint IDs with a service part, dtn:none
+        node = rng.choice([NODE, ("IPN", 2, 23, 0), ("NONE", 1, 0), ("DTN", 1, b"//here/svc"), ("IPN", 2, 23, 42), ("DTN", 1, "//kö/~grp/x".encode())])
         out.append(_line(_bundle(hop=hop, age=age, prev=rng.random() < 0.6, t=t, life=L, seq=rng.choice([0, 0, 1, 40, U64 - 1, rnd_u64(rng)]),
                                  bflags=tuple(rng.choice([0, 0, 0, 1, 4, 16, 0xF0, 0xFF, 8, rng.randrange(256)]) for _ in range(3)),
                                  crcs=None if rng.random() < 0.5 else [rng.choice(CRC_STATES) for _ in range(5)]), now, node, rt,
